@@ -310,6 +310,13 @@ class FnTerms:
             name = strip_generics(f.get("resolved") or f["path"])
         else:
             name = ("indirect", self.operand(f, b, pos))
+        if isinstance(name, str) and name.endswith("box_assume_init_into_vec_unsafe"):
+            # vec![a, b, c] on this toolchain: Box::new_uninit + raw write of the array + this call
+            for i, st in enumerate(self.blocks[b]["stmts"]):
+                if st["k"] == "assign" and st["place"]["proj"] and st["place"]["proj"][0]["k"] == "deref" \
+                        and st["rv"]["k"] == "aggregate" and st["rv"]["agg"] == "array":
+                    ops = tuple(self.operand(o, b, i) for o in st["rv"]["ops"])
+                    return ("agg", "vec", "", ops, ())
         return ("call", name, args, (self.path, b))
 
     # ------------------------------------------------------------------ call sites
